@@ -121,6 +121,7 @@ type frame struct {
 	ctlOut   map[*ssa.BasicBlock]string
 	noCtl    bool
 	edgeCtl  string
+	inBlock  bool // executing instructions of curBlock (call-site name lookups may use same-block references)
 }
 
 type deferSite struct {
@@ -498,6 +499,8 @@ func (f *frame) execBlock(b *ssa.BasicBlock) {
 		f.keepAt(fmt.Sprintf("b%d", b.Index), x.prog.pos(firstPos(b)), b)
 		f.cutJoin(b, phiVals)
 	}
+	f.inBlock = true
+	defer func() { f.inBlock = false }()
 	for _, in := range b.Instrs {
 		if _, ok := in.(*ssa.Phi); ok {
 			continue
@@ -964,6 +967,14 @@ func (f *frame) bestRef(name string, at *ssa.BasicBlock) *ssa.DebugRef {
 			if _, isConst := d.X.(*ssa.Const); !isConst {
 				continue
 			}
+		}
+		if b == at && f.inBlock && at == f.curBlock {
+			// inside the block being executed: references already passed are visible
+			// (regs only holds values computed so far, so d.X is defined)
+			if best == nil || best.Block().Dominates(b) {
+				best = d
+			}
+			continue
 		}
 		if b == at || !b.Dominates(at) {
 			continue
